@@ -35,6 +35,8 @@ func init() {
 			{Name: "exprex-errors-dropped", File: pp, Old: "\tif err != nil {\n\t\tp.errors = append(p.errors, err...)\n\t\texpr = &ast.BadExpr{From: off, To: end}\n\t}", New: "\tif err != nil {\n\t\texpr = &ast.BadExpr{From: off, To: end}\n\t}", Expect: "subparser-errors/parser.stringLitExpr"},
 			{Name: "advance-no-guard", File: pp, Old: "\t\t\tif p.pos == p.syncPos && p.syncCnt < 10 {\n\t\t\t\tp.syncCnt++\n\t\t\t\treturn\n\t\t\t}", New: "\t\t\tif p.pos == p.syncPos {\n\t\t\t\treturn\n\t\t\t}", Expect: "progress/parser.advance"},
 			{Name: "scope-not-closed-on-path", File: pp, Old: "\tpos := p.expect(token.FOR)\n\tp.openScope()\n\tdefer p.closeScope()\n\n\tvar s1, s2, s3 ast.Stmt", New: "\tpos := p.expect(token.FOR)\n\tp.openScope()\n\n\tvar s1, s2, s3 ast.Stmt", Expect: "scope-pairing/parser.parseForStmt"},
+			{Name: "lambda-without-label-scope", File: pp, Old: "\t\t\tp.openLabelScope()\n\t\t\tbody = p.parseBlockStmt()\n\t\t\tp.closeLabelScope()\n", New: "\t\t\tbody = p.parseBlockStmt()\n", Expect: "closure-label-scope/parser.parseLambdaExpr"},
+			{Name: "tuple-without-End", File: pp, Old: "func (p *tupleExpr) End() token.Pos { return p.closing }\n", New: "", Expect: "nil-embedded-iface/parser.tupleExpr"},
 			{Name: "new-assert-site", File: pp, Old: "\tcall := p.parseCallExpr(\"go\")\n", New: "\tcall := p.parseCallExpr(\"go\")\n\tassert(call != nil, \"nil call\")\n", Expect: "assert-site/parser.parseGoStmt"},
 		},
 	})
@@ -512,5 +514,84 @@ func scopePairing(c *core.Check, prog *core.Prog) {
 	}
 	c.Floor("scope-pairing", 8)
 	c.Analysed("functions_with_scope_calls", n)
+
+	// a block parsed as the body of a closure needs its own label scope: parseBranchStmt records labels in
+	// p.targetStack[len-1], which does not exist for a closure at package level
+	blockM := findMethod(parserT, "parseBlockStmt")
+	for _, fd := range core.AllFuncDecls(pk) {
+		if fd.Name.Name != "parseLambdaExpr" || core.RecvName(fd) != "parser" {
+			continue
+		}
+		ok, seen := true, false
+		p := &flow.Problem{Body: fd.Body, Info: info, Init: 2 << 6}
+		p.Node = func(nd ast.Node, st flow.State, record bool) flow.State {
+			for _, call := range flow.Calls(nd) {
+				switch calleeObj(info, call) {
+				case openL:
+					st = set(st, 6, get(st, 6)+1)
+				case closeL:
+					st = set(st, 6, get(st, 6)-1)
+				case blockM:
+					if record {
+						seen = true
+						if get(st, 6) <= 2 {
+							ok = false
+						}
+					}
+				}
+			}
+			return st
+		}
+		flow.Solve(p)
+		if seen {
+			c.Decide(ok, "closure-label-scope", "parser.parseLambdaExpr", fd.Pos(), "the lambda block is parsed inside its own label scope",
+				"a lambda block is parsed without an enclosing openLabelScope: a labelled break/continue/goto inside a lambda at package level indexes p.targetStack[-1] and panics out of ParseFile")
+		}
+	}
+
+	// a struct that embeds an interface only to satisfy it (the embedded value is never set) must declare every
+	// exported method of that interface itself: the promoted ones dereference nil
+	for _, name := range pk.Types.Scope().Names() {
+		tn, ok := pk.Types.Scope().Lookup(name).(*types.TypeName)
+		if !ok {
+			continue
+		}
+		nt, ok := tn.Type().(*types.Named)
+		if !ok {
+			continue
+		}
+		st, ok := nt.Underlying().(*types.Struct)
+		if !ok {
+			continue
+		}
+		for i := 0; i < st.NumFields(); i++ {
+			f := st.Field(i)
+			iface, isIface := types.Unalias(f.Type()).Underlying().(*types.Interface)
+			if !f.Embedded() || !isIface {
+				continue
+			}
+			if len(fieldStores(prog.Root, f)) > 0 {
+				continue // the embedded value is provided somewhere
+			}
+			missing := ""
+			for j := 0; j < iface.NumMethods(); j++ {
+				m := iface.Method(j)
+				if !m.Exported() {
+					continue
+				}
+				declared := false
+				for k := 0; k < nt.NumMethods(); k++ {
+					if nt.Method(k).Name() == m.Name() {
+						declared = true
+					}
+				}
+				if !declared {
+					missing += " " + m.Name()
+				}
+			}
+			c.Decide(missing == "", "nil-embedded-iface", "parser."+name, tn.Pos(), "declares every exported method of the interface it embeds without a value",
+				"this struct embeds interface "+f.Name()+" but no literal ever sets it, and it does not declare"+missing+": calling the promoted method on a value that reaches error recovery dereferences nil and panics out of ParseFile")
+		}
+	}
 
 }
